@@ -6,6 +6,7 @@ the names of the C locals:
   create v   the local must not already hold a descriptor (overwriting it would leak the old one)
   move v w   (`w = fdopen(v)`) v must hold one, w must not; afterwards w holds it
   close v / wrap v   v must hold a descriptor (otherwise: double close / a stale number handed to an object)
+  release o  (`janet_stream_close(o)`) an object that already owns its descriptor is closed: the locals are unaffected
   exit       nothing may be held - except by the two pipe constructors, whose successful return hands both ends to the caller
 
 Core Lean only.
@@ -25,6 +26,7 @@ def step (held : List String) (e : PEv) : Option (List String) :=
   else if e.1 = "close" ∨ e.1 = "wrap" then (if e.2.1 ∈ held then some (held.erase e.2.1) else none)
   else if e.1 = "move" then
     (if e.2.1 ∈ held ∧ e.2.2.1 ∉ held.erase e.2.1 then some (e.2.2.1 :: held.erase e.2.1) else none)
+  else if e.1 = "release" then some held
   else none
 
 def run : List String → List PEv → Option (List String)
@@ -62,7 +64,10 @@ def tableKeys (fn : String) : List String :=
 def pathKeys (fn : String) : List String :=
   (((Gen.FdPaths.paths.filter (fun p => p.1 == fn)).map (fun p => p.2.2.2.map (fun e => e.2.2.2))).flatten).eraseDups
 
-/-- hand-overs that are not calls of the site table (the duplicate written into a marshalled message) -/
-def pseudoKeys : List String := ["janet_marshal_int"]
+/-- events that are not calls of the site table: the duplicate written into a marshalled message (hand-over); the descriptor a caller
+    hands to `get_stdio_for_handle(handle, orig, …)` when `orig == NULL` (the parent's end of a pipe made by make_pipes in
+    os_execute_impl: the callee is its only owner and must wrap it; with `orig != NULL` the descriptor stays with the stream / file
+    `orig` and the path starts with nothing held) -/
+def pseudoKeys : List String := ["janet_marshal_int", "entry:handle"]
 
 end JanetModel.FdPaths
